@@ -607,6 +607,7 @@ func ruleC20Validator(c *Ctx) {
 	ips := p.SSAFunc(p.Method("boltz", "BaseStore", "IsPublicSymbol"))
 	c.Analysed(FnName(ips))
 	pub := p.Field("boltz", "BaseStore", "publicSymbols")
+	mapSyms := p.Field("boltz", "BaseStore", "mapSymbols")
 	fi2 := ComputeFacts(ips)
 	okIPS := true
 	whyIPS := ""
@@ -635,6 +636,23 @@ func ruleC20Validator(c *Ctx) {
 		if !fromLookup(v) {
 			okIPS = false
 			whyIPS = "returns a value at " + p.Pos(r.Pos()) + " that is not the outcome of a lookup in publicSymbols"
+			continue
+		}
+		// a lookup keyed by something other than the full symbol (the part before the dot) is
+		// only valid for elements of MAP symbols: it must sit under a successful mapSymbols lookup
+		lk := v.(*ssa.Extract).Tuple.(*ssa.Lookup)
+		if lk.Index != ssa.Value(ips.Params[1]) {
+			if !fi2.HoldsWhere(r.Block(), func(f Fact) bool {
+				ex, ok := f.V.(*ssa.Extract)
+				if f.Kind != "true" || !f.Pol || !ok || ex.Index != 1 {
+					return false
+				}
+				ml, ok := ex.Tuple.(*ssa.Lookup)
+				return ok && ml.CommaOk && derivesFromField(ml.X, mapSyms, 0)
+			}) {
+				okIPS = false
+				whyIPS = "a dotted symbol is declared public from its first segment without establishing that the segment is a map symbol (linked-entity paths such as places.name become public with places)"
+			}
 		}
 	}
 	c.Check(okIPS, "C20.VALIDATOR", "boltz.BaseStore.IsPublicSymbol", p.Pos(ips.Pos()), "every true answer is backed by a lookup in publicSymbols", whyIPS)
